@@ -24,7 +24,7 @@ CHECKS = {
         note="Trusted: models; feeding discipline documented in DESIGN (bytes of request i+1 reach stream parser i only while it is held at the final terminator; in async_pipelined handlers never read while no stream is selected, since a parser without an active stream ignores everything it is given).",
         technique=TECH + ": caller-schedule simulator over the parser conversion chain"),
     "C06": dict(engine="D1", cat="exploration", ref="DESIGN.md 4/C06",
-        text="Configuration sweep (buffer sizes 0..64 dense, residues near 4K/8K/64K/1M, random) with preambles whose critical pair sits exactly at the documented bound, under all chunk styles incl. exact-fill reads; effective size formula checked; after every parse() with done == false the input buffer must be non-empty.",
+        text="Configuration sweep (buffer sizes 0..64 dense, residues near 4K/8K/64K/1M, random) with preambles whose critical pair sits exactly at the documented bound, under all chunk styles incl. exact-fill reads; effective size formula checked; after every parse() with done == false the input buffer must be non-empty. Beyond-the-buffer cases put the oversized pair into the Params stream or into a GetValues query. Scenario chain_handoff re-uses the C05 conversion chain, in which request parsers start from an inherited (possibly completely full) buffer, with the same invariant.",
         note="Trusted: M-preamble. B-12..B-8 and beyond-buffer pairs are run for totality and honest StuckOnInput reporting, not asserted to parse.",
         technique=TECH + ": configuration/schedule search over request::Parser"),
     "C18": dict(engine="D1+D2", cat="exploration", ref="DESIGN.md 4/C18",
@@ -40,8 +40,8 @@ CHECKS = {
         note="Trusted: http crate's canonical_reason as the reason-phrase reference; the expected grammar is built by the harness from the documented format.",
         technique=TECH + ": fault-injecting io::Write sink, capacity exhaustion enumerated at every byte"),
     "C07": dict(engine="D2", cat="exploration", ref="DESIGN.md 4/C07",
-        text="Seeded search over connection histories: the real Token::run task on a deterministic executor over a simulated transport (reads of 1..n bytes or Pending, writes accepting 1..n bytes or Pending at every call, spurious polls), a compliant open-loop client with 1..4 requests and noise records, and a chooser-driven handler family. The decoded transport log and handler log are compared with M-conn: one invocation per request with the model's environment and input prefix, handler output, Stdout{} Stderr{} and exactly one EndRequest with the mapped status, replies exactly once in order and after their query, reuse iff keep-conn, task termination. One run in 16 is a long-lived connection of 5..12 requests; half of the runs give every poll a Waker of its own (wake-ups through older ones are lost); scenario reuse_after_abort re-uses the C11 connection scenario (an abort is not an I/O error: the next request must be served).",
-        note="Trusted: M-conn, wire codec. Does not constrain the order of management replies relative to EndRequest beyond causality.",
+        text="Seeded search over connection histories: the real Token::run task on a deterministic executor over a simulated transport (reads of 1..n bytes or Pending, writes accepting 1..n bytes or Pending at every call, spurious polls), a compliant open-loop client with 1..4 requests and noise records, and a chooser-driven handler family. The decoded transport log and handler log are compared with M-conn: one invocation per request with the model's environment and input prefix, handler output, Stdout{} Stderr{} and exactly one EndRequest with the mapped status, replies exactly once in order and after their query and - for every query that lies before input the request had already parsed - before that request's EndRequest, reuse iff keep-conn, task termination. One run in 16 is a long-lived connection of 5..12 requests; half of the runs give every poll a Waker of its own (wake-ups through older ones are lost); scenario reuse_after_abort re-uses the C11 connection scenario (an abort is not an I/O error: the next request must be served).",
+        note="Trusted: M-conn, wire codec. The order of a management reply relative to EndRequest is constrained only for queries that provably were parsed during the request (they lie before input its handler received).",
         technique=TECH + ": deterministic executor + simulated transport + peer model, history checked against reference model"),
     "C08": dict(engine="D2", cat="exploration", ref="DESIGN.md 4/C08",
         text="The same connection machinery in strict wake-only mode with the closed-loop peer of the quantifier; invariant evaluated at every suspension on the transport read (all replies for complete records already read are in the transport log) and wait-for-cycle detection at quiescence, with queries placed before, between and during requests and mid-stream. Found and now guards the two repaired defects F1/F2. Scenario closed_loop_duplex runs the same peer against handlers with concurrent writer and reader sub-tasks (a writer holds the output lock across Pending writes while the reader owes a reply); scenario query_then_more_in_one_burst lets further records follow a query in the same burst and evaluates the invariant whenever the task suspends having read a whole number of records.",
@@ -61,7 +61,7 @@ CHECKS = {
         technique=TECH + ": caller-schedule simulator + deterministic executor, abort placed at seeded record positions"),
     "C12": dict(engine="D2", cat="fault_enumeration", ref="DESIGN.md 4/C12",
         text="Per seeded scripted connection the fault points are enumerated: EOF at every input byte offset, a read error at every read call, a one-shot write error and a one-shot zero-length write at every write call, each in a fresh run replaying the script's choice list. Checked: termination without panic or spinning, no handler for an incompletely received preamble, end-of-file seen by a handler only behind a delivered terminator (short reads surface as errors), no write after a failed write, no transport read after a reported read error (error kinds ConnectionReset / Interrupted / TimedOut / Other drawn per script), log = well-formed prefix consistent with the handler log. Scenario hostile_traffic: the script under the C03 mutation operators (or random bytes), ungated, then end-of-file: termination without panic or spinning, output = server records only.",
-        note="Trusted: executor step cap as the spin detector (a poll that never returns would hang the check instead). Handlers propagate I/O errors.",
+        note="Trusted: two spin detectors - the executor step cap for tasks that are re-polled for ever, and a per-poll cap on transport calls (2 000 000) for a poll that keeps calling the transport without returning; a poll that loops without touching the transport would still hang the check. Handlers propagate I/O errors. The fault list also contains a flush error at every flush call; a share of the scripts use concurrent writer sub-tasks that are dropped where they stand when one fails.",
         technique=TECH + ": fault-point enumeration over a replayed seeded script (EOF / read error / write error / zero write at every index)"),
     "C14": dict(engine="D2+D3+D5", cat="exploration", ref="DESIGN.md 4/C14",
         text="Connection side: Runner::shutdown requested as a scheduler event at a seeded step (before the first read, mid-preamble, during the handler, during close, between requests, idle); started requests complete with their EndRequest, no handler starts in a poll that begins after the request, idle connections stop without another transport read, the shutdown future is Ready only after the token is dropped and its task is woken for it. Wait group: real threads under a serialising scheduler (one baton, seeded choice of the next thread at every harness operation, Waker callback and verif-hooks point) explore the interleavings of token drops with polls of the shutdown future, including the last drop landing between the liveness check and the waker registration and between registration and the drop of the temporary reference; Ready never early, no lost wake-up. The same clause is additionally sampled under Miri's seeded scheduler (64 / 4096 schedules with preemption anywhere).",
